@@ -24,6 +24,7 @@ func checkC16(p *Prog, r *Report) {
 	ruleC16Newline(p, a, r)
 	ruleC16ArgPos(p, a, r)
 	ruleC16Foreign(p, a, r)
+	ruleC16Cross(p, a, r)
 }
 
 // R-C16-EXECFILE: the constructor of execution errors names the template the reported token belongs to.
@@ -689,6 +690,71 @@ func ruleC16Newline(p *Prog, a *Anchors, r *Report) {
 	})
 	if n == 0 {
 		r.Bad("newline", "-", "the lexer never restarts the column at a newline")
+	}
+	// every place where the scanning function (the one that counts lines) consumes a character with next() is preceded,
+	// in the same pass, by a look at the coming character: a newline is either counted there or refused (the path ends
+	// without consuming it). A loop that passes characters without that look — a comment that may span lines — leaves
+	// every later token on too small a line.
+	var scan *ssa.Function
+	p.EachInstr(func(f *ssa.Function, in ssa.Instruction) {
+		if st, ok := in.(*ssa.Store); ok && isFieldAddrOf(st.Addr, "lexer", "line") && f.Name() != "lex" {
+			if bo, ok := st.Val.(*ssa.BinOp); ok && bo.Op == token.ADD && loadsField(bo.X, "lexer", "line") {
+				scan = f
+			}
+		}
+	})
+	if scan == nil || peek == nil {
+		r.Bad("counts-lines", "-", "no lexer function increments the line")
+		return
+	}
+	k := 0
+	for _, b := range scan.Blocks {
+		for _, in := range b.Instrs {
+			c, ok := in.(*ssa.Call)
+			if !ok || c.Common().StaticCallee() != next {
+				continue
+			}
+			k++
+			key := p.FuncName(scan) + ":next"
+			if k > 1 {
+				key += "#" + itoa(int64(k))
+			}
+			counted := false
+			for _, tb := range scan.Blocks {
+				iff, isIf := tb.Instrs[len(tb.Instrs)-1].(*ssa.If)
+				if !isIf || !tb.Dominates(b) || !isNewlineTest(iff.Cond, peek) {
+					continue
+				}
+				// the newline edge: counts the line, or never reaches this next()
+				nl := tb.Succs[0]
+				inc := false
+				for _, x := range nl.Instrs {
+					if s2, ok := x.(*ssa.Store); ok && isFieldAddrOf(s2.Addr, "lexer", "line") {
+						inc = true
+					}
+				}
+				// the test belongs to this pass: the tested character is the one this next() consumes (no other
+				// next() between them)
+				between := false
+				for _, mb := range scan.Blocks {
+					if mb != b && tb.Dominates(mb) && mb.Dominates(b) && mb != tb {
+						for _, x := range mb.Instrs {
+							if cc, ok := x.(*ssa.Call); ok && cc.Common().StaticCallee() == next {
+								between = true
+							}
+						}
+					}
+				}
+				if !between && (inc || !ReachableBlocks(nl)[b] || nl == b && false) {
+					counted = true
+				}
+			}
+			if counted {
+				r.OK(key, p.InstrPos(in), "the character it consumes was looked at first: a newline is counted or refused")
+			} else {
+				r.Bad(key, p.InstrPos(in), "%s consumes a character without a preceding newline test of peek() in the same pass: a line break passed here (e.g. inside a comment that may span lines) is not counted, and every later token and error reports a line that is too small", p.FuncName(scan))
+			}
+		}
 	}
 }
 
